@@ -5,6 +5,7 @@ C02 — The tower broadcasts only what an observed breach justifies.
 enumerate its call sites in the model and state what each can submit.
 -/
 import TeosVerif.Lemmas.Tower
+import TeosVerif.Gen.Calls
 import TeosVerif.Lemmas.TowerJust
 
 namespace Teos.C02
@@ -254,5 +255,19 @@ def demoHist : List (Node × Op) :=
 
 example : (runG demoCfg (start 100 []) demoHist).2.sent = [99] := by decide
 example : (runG demoCfg (start 100 []) demoHist).2.accepted = [((2, 7), .enc 32 99 10)] := by decide
+
+/-- **send_call_sites_are_the_modelled_ones** (tie to the source, regenerated on every run): in the
+non-test source of `teos/src`, `sendrawtransaction` is issued only by `Carrier::send_transaction`
+(which may call itself once the node is reachable again), and the carrier is asked to send only by
+`Responder::handle_breach`, twice by `handle_reorged_txs` and once by `rebroadcast_stale_txs` — exactly
+the call sites `handleBreach`, `reorgStep` and `rebroadcastStep` of the model; `handle_breach` itself is
+called only from the watcher's two paths (`breachStep`, `storeTriggeredAppointment`). -/
+theorem send_call_sites_are_the_modelled_ones :
+    Gen.Calls.sendRaw = [("carrier", "send_transaction", "")] ∧
+    Gen.Calls.carrierSend = [("carrier", "send_transaction", ""), ("responder", "handle_breach", ""),
+      ("responder", "handle_reorged_txs", ""), ("responder", "handle_reorged_txs", ""),
+      ("responder", "rebroadcast_stale_txs", "")] ∧
+    Gen.Calls.handleBreach = [("watcher", "store_triggered_appointment", ""), ("watcher", "handle_breaches", "")] := by
+  decide
 
 end Teos.C02
